@@ -410,7 +410,14 @@ class DocutilsRenderer(RendererProtocol):
             elif key == "id":
                 name = nodes.fully_normalize_name(str(value))
                 node["names"].append(name)
-                self.document.note_explicit_target(node, node)
+                # a duplicate-name message goes next to the node: inside it, it would
+                # become part of the content of inline code, an image, a span, ...
+                self.document.note_explicit_target(
+                    node,
+                    node
+                    if not isinstance(node, nodes.Inline | nodes.FixedTextElement)
+                    else self.current_node,
+                )
             else:
                 if key in converters:
                     try:
@@ -1452,7 +1459,8 @@ class DocutilsRenderer(RendererProtocol):
         self.add_line_and_source_path(node, token)
         name = nodes.fully_normalize_name(label)
         node["names"].append(name)
-        self.document.note_explicit_target(node, node)
+        # (a duplicate-name message belongs next to the equation, not inside its content)
+        self.document.note_explicit_target(node, self.current_node)
         self.current_node.append(node)
 
     def render_amsmath(self, token: SyntaxTreeNode) -> None:
